@@ -274,9 +274,15 @@ def o64(ctx):
     for vec in ((1, 0, 0), (0, 1, 0), (-1, 0, 0), (0, -1, 0), (0, 0, 1), (0, 0, -1), (2, 0, 0), (0, 0, 5), (3, 0, 4), (0, 2, -2),
                 (1e-3, 0, 0), (0.6, 0.8, 0)):
         special.append({"nx": float(vec[0]), "ny": float(vec[1]), "nz": float(vec[2]), "__salt__": 0.1})
-    for order, idx in (("zxz", (0, 1, 2)), ("zzx", (0, 2, 1))):
+    def table_input():
+        # the other documented input form: a data frame with the columns x, y, z (in any column order, among other columns)
+        f = Frame({"id": sym("pid"), "z": sym("nz"), "x": sym("nx"), "area": sym("area"), "y": sym("ny")}, ["id", "z", "x", "area", "y"], name="normals")
+        f.space = Space("normals", how="root")
+        return f
+
+    for order, idx, form in (("zxz", (0, 1, 2), "array"), ("zzx", (0, 2, 1), "array"), ("zxz", (0, 1, 2), "table")):
         it = Interp(ctx.prog)
-        r = it.run(q, [Arr([sym("nx"), sym("ny"), sym("nz")], 2), K(order)], {})
+        r = it.run(q, [Arr([sym("nx"), sym("ny"), sym("nz")], 2) if form == "array" else table_input(), K(order)], {})
         a = as_arr_(r.ret)
         if a is None or len(a.cols) != 3:
             raise Unsupported("normals_to_euler_angles does not return an (N,3) array", fn)
@@ -286,9 +292,9 @@ def o64(ctx):
         for k, c in enumerate(("nx", "ny", "nz")):
             v = tm.equivalent(T("item", zaxis, k), mk("div", sym(c), nrm), samplers=nsam, n=30, extra_envs=special, tol=1e-6,
                               seed_tag=q + order + c)
-            ctx.count(1, {"output_order": order, "component": k, "points": v.points, "equal": bool(v)})
+            ctx.count(1, {"output_order": order, "input": form, "component": k, "points": v.points, "equal": bool(v)})
             if not v:
-                ctx.finding(q, f"returned angles (output_order={order!r})", "the z-axis of the returned orientation zxz(phi, theta, psi) "
+                ctx.finding(q, f"returned angles (output_order={order!r}, {form} input)", "the z-axis of the returned orientation zxz(phi, theta, psi) "
                             f"must be the normalised input normal (component {k})", fn, m, witness=v.witness)
                 break
 
@@ -299,9 +305,9 @@ def _obligations():
         Obligation("O6.1", "euler_angles_to_normals returns the unit image of the z-axis per orientation", o61, floor=3),
         Obligation("O6.2", "angular_distance = rotation angle of R1^-1 R2, arccos argument clamped", o62, floor=3),
         Obligation("O6.3", "cone distance = angle between z-axes (clamped); in-plane distance in [0,180], 0 for equal; triple order", o63, floor=40),
-        Obligation("O6.4", "normals_to_euler_angles: z-axis of the result is n/|n| for any normal incl. axis-aligned", o64, floor=6),
+        Obligation("O6.4", "normals_to_euler_angles: z-axis of the result is n/|n| for any normal incl. axis-aligned", o64, floor=9),
     ]
 
 
 def obligations():
-    return _obligations() + [labels_obligation("C06"), selectors_obligation("C06"), effects_obligation("C06"), plumbing_obligation("C06"), overrides_obligation("C06"), options_obligation("C06")]
+    return _obligations() + [labels_obligation("C06"), selectors_obligation("C06"), effects_obligation("C06"), plumbing_obligation("C06"), overrides_obligation("C06"), options_obligation("C06"), handlers_obligation("C06")]
